@@ -172,3 +172,115 @@ func (m *Machine) flushRefinements() {
 		m.solver.Assert(f)
 	}
 }
+
+// ---- seeded witness search for the abstract URL encoding
+//
+// A model of a path condition over uninterpreted url.Parse fields assigns arbitrary strings to the raw
+// inputs; refinement then has to refute one random string after the other. Witnesses (covering models,
+// counterexamples) are therefore first searched among a fixed list of well-formed example URIs for which
+// all ground facts are asserted up front; only if none fits is the unrestricted refinement loop run.
+// Restricting the search is only ever used to FIND a model (which is then replayed natively), never to
+// discharge an obligation.
+
+var urlSeeds = []string{
+	"", "http://127.0.0.1/cb", "http://127.0.0.1:8080/cb", "http://[::1]/cb", "http://[::1]:9/cb",
+	"https://app.example/cb", "https://app.example/cb#frag", "http://app.example/cb", "http://localhost/cb",
+	"http://x.localhost/cb", "http://127.0.0.1.evil/cb", "app://cb", "/relative", "HTTP://127.0.0.1/cb",
+	"http://127.0.0.1/cb?x=1", "https://app.example/other", "http://127.0.0.2/cb", "https://127.0.0.1/cb",
+	"http://evillocalhost/cb", "http://localhost.evil/cb", "http://127.0.0.1/other",
+}
+
+var urlSeedFacts []*Term
+
+func seedFacts() []*Term {
+	if urlSeedFacts != nil {
+		return urlSeedFacts
+	}
+	var out []*Term
+	add := func(name string, so Sort, args ...*Term) *Term {
+		v := ufNative[name](args)
+		if v != nil {
+			out = append(out, mkEq(mkUF(name, so, args...), v))
+		}
+		return v
+	}
+	for _, sd := range urlSeeds {
+		s := mkStr(sd)
+		add("u_url_err", SBool, s)
+		sc := add("u_url_scheme", SStr, s)
+		h := add("u_url_host", SStr, s)
+		add("u_url_path", SStr, s)
+		add("u_url_rawquery", SStr, s)
+		add("u_url_fragment", SStr, s)
+		str := add("u_url_str", SStr, s)
+		if sc != nil {
+			add("u_lower", SStr, sc)
+		}
+		if h != nil {
+			if hn := add("u_hostname", SStr, h); hn != nil {
+				add("u_ip6_loopback", SBool, hn)
+			}
+		}
+		if str != nil {
+			add("u_is_request_url", SBool, str)
+		}
+	}
+	urlSeedFacts = out
+	return out
+}
+
+// abstractRaws: the symbolic strings that were parsed with the abstract encoding on this path.
+func (m *Machine) abstractRaws(extra []*Term) []*Term {
+	apps := map[string]*Term{}
+	for _, p := range m.pc {
+		collectUFApps(p, apps)
+	}
+	for _, p := range extra {
+		collectUFApps(p, apps)
+	}
+	seen := map[string]bool{}
+	var out []*Term
+	for _, a := range apps {
+		if a.S == "u_url_err" && !a.Args[0].IsConst() && !seen[a.Args[0].String()] {
+			seen[a.Args[0].String()] = true
+			out = append(out, a.Args[0])
+		}
+	}
+	return out
+}
+
+// withRefinedModel looks for a model of the current assertions that agrees with the native evaluators and,
+// when one exists, calls use while the solver is in that sat state. It returns Sat (use was called), Unsat
+// (refinement refuted every model) or Unknown.
+func (m *Machine) withRefinedModel(use func(), extra ...*Term) Result {
+	if raws := m.abstractRaws(extra); len(raws) > 0 {
+		m.solver.Push()
+		for _, f := range seedFacts() {
+			m.solver.Assert(f)
+		}
+		for _, r := range raws {
+			var alts []*Term
+			for _, sd := range urlSeeds {
+				alts = append(alts, mkEq(r, mkStr(sd)))
+			}
+			m.solver.Assert(mkOr(alts...))
+		}
+		res := m.solver.Check()
+		if res == Sat {
+			res = m.refineModel(extra...)
+		}
+		if res == Sat {
+			use()
+			m.solver.Pop()
+			return Sat
+		}
+		m.solver.Pop()
+		// facts learned inside the scope are true in general: keep them
+		m.flushRefinements()
+	}
+	res := m.checkRefined(extra...)
+	if res == Sat {
+		use()
+	}
+	return res
+}
